@@ -148,7 +148,7 @@ static int parse_set(AsmContext *asm_context)
 
   if (token_type == TOKEN_EOL || token_type == TOKEN_EOF)
   {
-    print_error_unexp(asm_context, token);
+    print_error_unexp(asm_context, name);
     return -1;
   }
 
@@ -220,7 +220,7 @@ static int parse_equ(AsmContext *asm_context)
 
   if (token_type == TOKEN_EOL || token_type == TOKEN_EOF)
   {
-    print_error_unexp(asm_context, token);
+    print_error_unexp(asm_context, name);
     return -1;
   }
 
